@@ -43,6 +43,18 @@ CHECKS = {
  "C14": (T + "truncation monitor: every proper prefix of generated valid packets, alone and after complete packets, fresh and warm caches",
          "Each cut must give the preceding packets unchanged plus exactly one error whose remaining bytes are the truncated packet; V5/V7/IPFIX cuts must leave the four caches identical.",
          "V9 cuts on flowset boundaries are excluded as the property states; all cut points for packets up to 400 bytes (2 KiB for every 8th / in the thorough tier), structural boundaries and samples beyond."),
+ "C13": (T + "projection oracle: as_netflow_common / parse_bytes_as_netflow_common_flowsets vs a projection computed from the abstract stream with an independent projected-field table",
+         "For V5/V7/V9/IPFIX streams whose templates mix the ten projected fields (IPv4 or IPv6 variants) with others: version, timestamp, one flow per record in order, every field equal to the abstract value and None exactly when the record has no such field; errors convert to Err; the flattening helper equals the concatenation over the packets of the buffer.",
+         "Projected fields are generated at their natural widths and at most once per template so that the projection is unambiguous."),
+ "C15": (T + "counting global allocator around every parse_bytes call: work / single-request / output bounds on hostile histories, constant-free doubling tests on size-parametrised families, announced-count inputs",
+         "Bytes requested, allocation count, peak, largest single request and result size (bytes released when the result is dropped) are deterministic per call. Sharp monitors: doubling pairs (k vs 2k must stay linear for every repetition of the format) and the single-request bound (no allocation sized by a count/length field beyond what the input or result justifies); the absolute bounds use constants calibrated on the repaired tree.",
+         "Allocation is the proxy for cost (a quadratic loop that allocates nothing would be missed); calls whose caches hold zero-length fields are attributed to the listed amplification finding and only judged by the single-request bound."),
+ "C16": (T + "JSON oracle: serde_json output read back by an independent order-preserving reader and compared with a tree built independently from the decoded structure; text compared across repeats and parser instances",
+         "Well-formedness (strict RFC 8259 reader), determinism (same result twice; two instances fed the same history), faithfulness (every header field, template definition and cell value incl. 128-bit integers digit by digit, non-finite floats as null, record keys in template order, padding absent).",
+         "The expected tree restates the documented derive(Serialize) shape of the public result types; a deliberate change of the JSON shape would have to be mirrored there."),
+ "C17": (T + "cross-build differential: build with --no-default-features (build failure = violation), same seeded streams in both builds, transcripts compared; feature-off build checked against the abstract stream where unknown fields occur",
+         "Known-only streams must give identical decoded results, re-export bytes and common flows in both builds (hashes compared call by call); with the feature off, data governed by a template containing an unknown field must not be reported as records while everything else equals the abstract stream.",
+         "'Unknown' = the library's own data-type lookup returns Unknown; IPFIX sets after an undecodable set are C05's listed finding and the affected stream is cut short (counted) rather than judged."),
 }
 PENDING = {
  "C06": "check not wired yet (in progress); the technique applies, see DESIGN.md",
